@@ -138,8 +138,7 @@ Section Global.
   Variable s : str.
   Variable ncap : N.
   Variable names : list (N * str).
-  Hypothesis Hg : fg fl = true.
-  Hypothesis Hy : fy fl = false.
+  Hypothesis Hg : fg fl = true.      (* g alone, or g together with y *)
   (* EVERY abstract engine whose results pass the validator *)
   Hypothesis Hwf : forall p m, 0 <= p <= slen s -> find s p = Some m -> match_wf (fu fl) ncap names s p m = true.
 
@@ -149,17 +148,18 @@ Section Global.
         |s|+2 gives the same result and the loop ends by itself; lastIndex ends at 0 *)
   Theorem global_loop_terminates : forall n, (loop_fuel s <= n)%nat ->
     g_loop find fl s n 0 = g_loop find fl s (loop_fuel s) 0 /\ snd (g_loop find fl s n 0) = true.
-  Proof. exact (Proofs.global_loop_terminates find fl s Hg Hy Hfind). Qed.
+  Proof. exact (Proofs.global_loop_terminates find fl s Hg Hfind). Qed.
   Theorem global_matches_lastIndex_zero : snd (g_matches find fl s) = 0.
-  Proof. rewrite (Proofs.g_matches_rx2 find fl s Hg Hy Hfind). reflexivity. Qed.
+  Proof. rewrite (Proofs.g_matches_rx2 find fl s Hg Hfind). reflexivity. Qed.
 
-  (* 9. PATH INDEPENDENCE for match and replace with g (regexp2's find-all iteration, which is what the
-        optimised path uses whenever it does not go through Go's FindAll): results AND lastIndex *)
+  (* 9. PATH INDEPENDENCE for match and replace with g, sticky or not (regexp2's find-all iteration, which is
+        what the optimised path uses whenever it does not go through Go's FindAll): results AND lastIndex.
+        (Before 4fe706d this failed for g together with y: finding F202, fixed.) *)
   Theorem protocol_paths_agree_match_g : forall li, match_fast find fl s RX2 li = match_generic find fl s li.
-  Proof. exact (Proofs.match_g_paths_agree find fl s Hg Hy Hfind). Qed.
+  Proof. exact (Proofs.match_g_paths_agree find fl s Hg Hfind). Qed.
   Theorem protocol_paths_agree_replace_g : forall li,
     replace_fast find fl rep s RX2 li = replace_generic find fl rep s li.
-  Proof. exact (Proofs.replace_g_paths_agree find fl rep s Hg Hy Hfind). Qed.
+  Proof. exact (Proofs.replace_g_paths_agree find fl rep s Hg Hfind). Qed.
 End Global.
 
 Section SplitPaths.
@@ -168,9 +168,7 @@ Section SplitPaths.
   Variable s : str.
   Variable ncap : N.
   Variable names : list (N * str).
-  (* the route on which the optimised splitter runs over Go's FindAll without u: an ASCII subject *)
   Hypothesis Hu : fu fl = false.
-  Hypothesis Hasc : is_ascii s = true.
   Hypothesis Hwf : forall p m, 0 <= p <= slen s -> find s p = Some m -> match_wf (fu fl) ncap names s p m = true.
   (* the engine is a leftmost scan: starting later, but not after the match it found, finds the same
      match; a scan that failed stays failed *)
@@ -179,16 +177,34 @@ Section SplitPaths.
 
   (* 9c. PATH INDEPENDENCE for split: stdSplitter over the list of Go's FindAll (which drops an empty
          match adjacent to the previous match) equals the generic @@split protocol loop, for every limit *)
-  Theorem protocol_paths_agree_split : forall lim, split_fast find fl s RE2 lim = split_generic find fl s lim.
-  Proof. exact (Proofs.split_paths_agree_wf find fl s ncap names Hu Hasc Hwf Hsame Hnone). Qed.
+  Theorem protocol_paths_agree_split : is_ascii s = true ->      (* the route on which Go's FindAll is used without u *)
+    forall lim, split_fast find fl s RE2 lim = split_generic find fl s lim.
+  Proof. exact (fun Hasc => Proofs.split_paths_agree_wf find fl s ncap names Hu Hasc Hwf Hsame Hnone). Qed.
+  (* 9d. ... and over regexp2's match list, which contains the empty matches adjacent to the previous match
+         (before 811a68b the splitter did not skip them: finding F203, fixed) *)
+  Theorem protocol_paths_agree_split_rx2 : forall lim, split_fast find fl s RX2 lim = split_generic find fl s lim.
+  Proof. exact (Proofs.split_paths_agree_rx2_wf find fl s ncap names Hu Hwf Hsame Hnone). Qed.
 End SplitPaths.
 
-(* 10. non-vacuity of 8 and 9 (a concrete engine that passes the validator: a* on "baac"), and the three
-       places where the optimised path of this tree is refuted to equal the generic path (findings F201-F203) *)
+(* 9e. PATH INDEPENDENCE for replace without g (at most one match; sticky or not), for BOTH engines, every
+       lastIndex - also beyond the end of the subject (a3eeab9, F200) - and every subject (99d84e8, F204) *)
+Theorem protocol_paths_agree_replace_one : forall (find : str -> Z -> option mres) fl rep s ncap names,
+  fg fl = false ->
+  (forall p m, 0 <= p <= slen s -> find s p = Some m -> match_wf (fu fl) ncap names s p m = true) ->
+  forall e li, replace_fast find fl rep s e li = replace_generic find fl rep s li.
+Proof. exact Proofs.replace_one_paths_agree_wf. Qed.
+Example replace_one_beyond_length :   (* /a*/y, lastIndex 3, "ab": no match, lastIndex reset, both paths *)
+  let f := fun (_ : str) (p : Z) => Some (mkM p p [Some []] None []) in
+  replace_fast f (mkFlags false false false false false true) (fun _ => [45]%N) [97; 98]%N RX2 3 = (RS [97; 98]%N, 0) /\
+  replace_generic f (mkFlags false false false false false true) (fun _ => [45]%N) [97; 98]%N 3 = (RS [97; 98]%N, 0).
+Proof. split; reflexivity. Qed.
+
+(* 10. non-vacuity of 8 and 9 (a concrete engine that passes the validator: a* on "baac"), and the one
+       place where the optimised path of this tree is still refuted to equal the generic path (finding F201, open) *)
 Example global_nonvacuous :
   (forall p m, 0 <= p <= slen s_baac -> find_astar s_baac p = Some m -> match_wf (fu fl_g) 0 [] s_baac p m = true) /\
   match_generic find_astar fl_g s_baac 0 = (RL [Some []; Some [97; 97]%N; Some []; Some []], 0).
-Proof. split; [exact Proofs.find_astar_wf|exact (proj2 (proj2 Proofs.baac_agreements))]. Qed.
+Proof. split; [exact Proofs.find_astar_wf|exact (proj2 (proj2 (proj2 (proj2 Proofs.baac_agreements))))]. Qed.
 Example split_nonvacuous :
   is_ascii s_baac = true /\
   (forall p m q, 0 <= p <= slen s_baac -> find_astar s_baac p = Some m -> p <= q <= ms m -> find_astar s_baac q = Some m) /\
@@ -196,11 +212,6 @@ Example split_nonvacuous :
 Proof. split; [reflexivity|]. split; [exact (proj1 Proofs.find_astar_scan)|reflexivity]. Qed.
 Theorem match_g_re2_refuted : match_fast find_astar fl_g s_baac RE2 0 <> match_generic find_astar fl_g s_baac 0.
 Proof. exact Proofs.match_g_re2_refuted. Qed.
-Theorem match_gy_refuted : match_fast find_astar fl_gy s_baac RX2 0 <> match_generic find_astar fl_gy s_baac 0.
-Proof. exact Proofs.match_gy_refuted. Qed.
-Theorem split_rx2_refuted :
-  split_fast find_astar fl_none s_baac RX2 None <> split_generic find_astar fl_none s_baac None.
-Proof. exact Proofs.split_rx2_refuted. Qed.
 
 Print Assumptions advance_string_index_spec.
 Print Assumptions advance_skips_pair.
@@ -225,6 +236,6 @@ Print Assumptions global_matches_lastIndex_zero.
 Print Assumptions protocol_paths_agree_match_g.
 Print Assumptions protocol_paths_agree_replace_g.
 Print Assumptions match_g_re2_refuted.
-Print Assumptions match_gy_refuted.
-Print Assumptions split_rx2_refuted.
 Print Assumptions protocol_paths_agree_split.
+Print Assumptions protocol_paths_agree_split_rx2.
+Print Assumptions protocol_paths_agree_replace_one.
